@@ -76,6 +76,7 @@ Fixpoint name_of (t : rty) : outcome tsty :=
   | RLeaf l => Ok (leaf_ts l)
   | ROption t => bind (name_of t) (fun a => Ok (TUnion [a; prim "null"]))
   | RVec t => bind (name_of t) (fun a => Ok (TArray a))
+  | RArray O _ => Ok (TTuple [])          (* `(0..N).map(..)`: the element type is never asked *)
   | RArray n t => bind (name_of t) (fun a => Ok (array_ts n a))
   | RTuple ts => bind (omap_list name_of ts) (fun l => Ok (TTuple l))
   | RMap k v => bind (name_of k) (fun a => bind (name_of v) (fun b => Ok (TMapped a b)))
@@ -141,6 +142,7 @@ Fixpoint lib_inline (t : rty) : outcome tsty :=
   | RLeaf l => Ok (leaf_ts l)
   | ROption t => bind (lib_inline t) (fun a => Ok (TUnion [a; prim "null"]))
   | RVec t => bind (lib_inline t) (fun a => Ok (TArray a))
+  | RArray O _ => Ok (TTuple [])
   | RArray n t => bind (lib_inline t) (fun a => Ok (array_ts n a))
   | RTuple _ => Panic (lit "tuple cannot be inlined!")
   | RMap k v => bind (lib_inline k) (fun a => bind (lib_inline v) (fun b => Ok (TMapped a b)))
